@@ -45,6 +45,93 @@ def interesting_cuts(stream, bounds, rnd, k):
     return res
 
 
+def handshake_leg(ctx, rep, rnd, tier):
+    """partitions of the handshake-to-message boundary: message bytes arriving in the same read as BEGIN, against the real daemon"""
+    import socket, time
+    sys.path.insert(0, os.path.join(vlib.VERIF, "harness", "py"))
+    from rawbus import Daemon, Msg, parse_message, METHOD_CALL, F_PATH, F_INTERFACE, F_MEMBER, F_DESTINATION
+    d = Daemon(ctx["info"]["daemon"])
+    n_part = 0
+    try:
+        def calls():
+            out = []
+            for k in range(1, 42):
+                big = "x" * rnd.choice((1, 10, 200, 700)) if k % 3 else "org.freedesktop.DBus"
+                out.append(Msg(METHOD_CALL, 0, k, {F_PATH: "/org/freedesktop/DBus", F_INTERFACE: "org.freedesktop.DBus", F_MEMBER: "NameHasOwner" if k > 1 else "Hello",
+                                                  F_DESTINATION: "org.freedesktop.DBus"}, "s" if k > 1 else "", (big,) if k > 1 else (), le=(k % 2 == 0)).encode())
+            return b"".join(out), len(out)
+        stream, nmsgs = calls()
+
+        def session(chunks, pause):
+            s = socket.socket(socket.AF_UNIX, socket.SOCK_STREAM)
+            s.settimeout(5.0)
+            s.connect(d.sock)
+            s.sendall(b"\0AUTH EXTERNAL " + str(os.getuid()).encode().hex().encode() + b"\r\n")
+            buf = b""
+            while b"\r\n" not in buf:
+                buf += s.recv(4096)
+            try:
+                for c in chunks:
+                    s.sendall(c)
+                    if pause:
+                        time.sleep(pause)
+            except OSError:
+                pass
+            data = bytearray()
+            got = []
+            s.settimeout(3.0)
+            try:
+                while len(got) < nmsgs + 1:
+                    b = s.recv(65536)
+                    if not b:
+                        got.append("EOF")
+                        break
+                    data += b
+                    while True:
+                        m, n = parse_message(data)
+                        if m is None:
+                            break
+                        del data[:n]
+                        if m.mtype in (2, 3):
+                            body = m.body if m.mtype == 2 else m.fields.get(4)
+                            if m.fields.get(5) == 1 and m.mtype == 2:
+                                body = "UNIQUE-NAME"      # the Hello reply differs per connection
+                            got.append((m.fields.get(5), m.mtype, body))
+                        if len([g for g in got if g != "EOF"]) >= nmsgs:
+                            break
+                    if len([g for g in got if g != "EOF"]) >= nmsgs:
+                        break
+            except socket.timeout:
+                got.append("TIMEOUT")
+            except OSError as e:
+                got.append("EOF")
+            s.close()
+            return got
+        whole = b"BEGIN\r\n" + stream
+        ref = session([b"BEGIN\r\n", stream], 0.05)
+        if len(ref) != nmsgs or "EOF" in ref or "TIMEOUT" in ref:
+            rep.violation("reference session (BEGIN alone, then the messages) did not get %d replies: %s" % (nmsgs, str(ref)[:300]), {"names": "handshake leg reference"}, found_input=False)
+            return 0
+        cutsets = [[3], [6], [7], [8], [7, 8], [7 + 16], [7 + 100], [7 + 2047], [7 + 2048], [7 + 2049], [7 + 4096], [7 + 2048, 7 + 4096], [len(whole) - 1],
+                   list(range(1, 40)), [7 + 5000], [2, 9, 7 + 3000]]
+        for _ in range(6 if tier == "quick" else 60):
+            cutsets.append(sorted(set(rnd.randrange(1, len(whole)) for _ in range(rnd.randint(1, 5)))))
+        for cuts in cutsets:
+            for pause in (0, 0.002):
+                got = session(split_at(whole, cuts), pause)
+                n_part += 1
+                if got != ref:
+                    rep.violation("handshake boundary: BEGIN + %d messages written in chunks %s (pause %s) gives different replies than when the messages follow BEGIN in a separate write: got %d replies %s..., reference %d" % (
+                        nmsgs, [len(c) for c in split_at(whole, cuts)][:12], pause, len(got), str(got[:3])[:150], len(ref)),
+                        {"leg": "handshake", "cuts": cuts, "pause": pause, "got": str(got)[:2000], "stream_hex": whole.hex()[:400]})
+                    break
+    finally:
+        rc, err = d.stop()
+        if rc not in (0, -15) or "ERROR: AddressSanitizer" in err or "runtime error" in err:
+            rep.violation("daemon died or reported a sanitizer error during the handshake leg: rc=%s %s" % (rc, err[-500:]), {"leg": "handshake", "stderr": err})
+    return n_part
+
+
 def run(ctx):
     rep, tier, info = ctx["rep"], ctx["tier"], ctx["info"]
     rnd = random.Random(ctx["seed"])
@@ -107,8 +194,10 @@ def run(ctx):
         elif outcome(i) != outcome(m):
             rep.violation("loader outcome differs from model for chunks %s: impl %s vs model %s" % ([len(c) for c in chunks][:40], i[:120], m[:120]),
                           {"cmd": l, "impl": i, "model": m, "names": "correspondence wire_h/load (chunked) vs Wire.Message.feed_all"}, found_input=False)
+    n_hs = handshake_leg(ctx, rep, rnd, tier)
+    meta["handshake_partitions"] = n_hs
     rep.coverage.update({
-        "evaluations": len(cases), "distinct_nontrivial": len(nontrivial),
+        "evaluations": len(cases) + n_hs, "distinct_nontrivial": len(nontrivial),
         "rule": "streams of 1-8 random valid messages (both byte orders, sizes 16 B - 70 KB), half of them followed by a corrupted message and more bytes; "
                 "cut sets: every single cut at fixed-header/ header-end / message-end boundaries +-1, one-byte chunks for streams <= 600 bytes, random multi-cuts; "
                 "all subsets of 14 boundary cut points of a two-message stream (thorough; every 7th in quick). non-trivial = more than one chunk",
@@ -116,4 +205,4 @@ def run(ctx):
         "input_distribution": meta, "traces_validated_against_impl": len(cases), "disagreements_checked": len(rep.violations),
     })
     rep.assumptions = ["the harness feeds the loader through get_buffer/return_buffer + queue_messages after every chunk, honouring max_to_read, as the socket transport does",
-                       "the handshake-to-message boundary (bytes after BEGIN in the same read) is exercised by the C08 check"]
+                       "the handshake-to-message boundary is exercised against the real daemon over a unix socket (BEGIN + 41 pipelined calls, 9 KB, both byte orders) with cuts inside BEGIN, right after it, around 2048/4096 bytes and random, with and without a 2 ms pause between writes; expected outcome = the same daemon's replies when the messages follow BEGIN in a separate write"]
